@@ -1,6 +1,6 @@
 (* C03 - parsing is total.  Statements only. *)
 From Plush Require Import model.Bytes model.Lexer model.Ast model.Parser model.Value model.Eval
-  proofs.LexerProofs proofs.EvalProofs.
+  proofs.LexerProofs proofs.ParserTotal proofs.ParseTotal proofs.EvalProofs.
 
 (* the lexer turns every byte string into a token list: the model's fuel
    (length + 2 calls of NextToken) never runs out, because every call consumes
@@ -14,6 +14,19 @@ Theorem C03_next_token_progress : forall fuel l t l', (length (lrest l) < fuel)%
   next_token fuel l = (t, l') ->
   (length (lrest l') < length (lrest l))%nat \/ (tk t = EOF /\ (at_end l' || negb (linside l)) = true).
 Proof. exact next_token_progress. Qed.
+
+(* the parser terminates on every token list that ends in EOF: the depth of the
+   recursive descent is at most 24 * (number of tokens) + 24, the model's fuel *)
+Theorem C03_parser_total : forall ts, tokens_ok ts -> parse_tokens ts <> ParseFuel.
+Proof. exact parse_tokens_total. Qed.
+Print Assumptions C03_parser_total.
+
+(* Parse as a whole: for every input text, a program or a list of syntax
+   errors - never out of fuel (the model's only other outcome) *)
+Theorem C03_parse_total : forall s,
+  (exists prog, parse s = ParseOk prog) \/ (exists ls, parse s = ParseErr ls).
+Proof. exact parse_total_cases. Qed.
+Print Assumptions C03_parse_total.
 
 (* rendering never panics, for any input text: no function of the model
    evaluator returns RPanic, and the parser has no panic outcome at all *)
